@@ -15,6 +15,14 @@ class Hamiltonian(CallableModel):
         super().__init__(id_)
         self.joint = joint
 
+    def __call__(self, *args, **kwargs) -> Tensor:
+        # The value depends on the momentum (and mass matrix) given as keyword
+        # arguments. They are not parameters of the model, so nothing invalidates
+        # the cached value when they change: always recompute.
+        self.lp = self._call(*args, **kwargs)
+        self.lp_needs_update = False
+        return self.lp
+
     def _call(self, *args, **kwargs) -> Tensor:
         momentum: Tensor = kwargs["momentum"]
         if "inverse_mass_matrix" in kwargs:
